@@ -112,7 +112,8 @@ pub fn padded_program(ops: &[Op], target: Option<(u32, i8)>, pad_pos: u16) -> Re
             let mut pads = Vec::new();
             while need > 0 {
                 let k = need.min(60000);
-                pads.push(Op::Pad(k as u16));
+                // odd positions pad with pairwise distinct selector tuples
+                pads.push(if pad_pos & 1 == 1 { Op::PadDistinct(k as u16) } else { Op::Pad(k as u16) });
                 need -= k;
             }
             for (i, p) in pads.into_iter().enumerate() {
